@@ -50,10 +50,16 @@ impl Parsed {
         for (i, file) in file_tree.files.iter().enumerate() {
             let ident: Identifier = (&file.module_name).into();
             let ident = spans.add(
+                // The module is represented by the first character of its
+                // file (or nothing if the file is empty).
                 Span {
                     file: i,
                     start: 0,
-                    end: 1,
+                    end: file
+                        .contents
+                        .chars()
+                        .next()
+                        .map_or(0, char::len_utf8),
                 },
                 ident,
             );
